@@ -228,6 +228,8 @@ Proof.
       apply IHp; cbn; auto. eapply eager_covers; eauto.
     + cbn [meas_at]. apply eager_nm; auto. intros l Hl.
       apply (IHp Hwf Hat (SDict l) drop); cbn; auto. eapply eager_covers; eauto.
+  - (* Ren *)
+    cbn [wf] in Hwf. cbn [build meas_at]. apply IHp; auto.
 Qed.
 
 Lemma remove_id_in : forall x i l, In x l -> x <> i -> In x (remove_id i l).
@@ -299,4 +301,6 @@ Proof.
       unfold map_env. destruct (assoc x m) eqn:E.
       * eapply Hm. eapply assoc_some_in; eauto.
       * exfalso. eapply assoc_none_notin; eauto.
+  - (* Ren *)
+    cbn [run]. cbn [pnames] in C. cbn [wf] in Hwf. apply IHp; auto.
 Qed.
